@@ -100,11 +100,27 @@ from typing import Any, Callable, Optional
 from .depends import depends
 from .display import _display_accessors, _reactive_display_objs
 from .parameterized import (
+    Comparator, Event as _ParamEvent,
     Parameter, Parameterized, Skip, Undefined, eval_function_with_deps, get_method_owner,
     register_reference_transform, resolve_ref, resolve_value, transform_reference
 )
 from .parameters import Boolean, Event
 from ._utils import _to_async_gen, iscoroutinefunction, full_groupby
+
+
+def _no_change(events):
+    """
+    The internal watchers of expressions hear of every assignment, since
+    values that compare equal (1, True, 1.0) are still different results:
+    True if all these events re-assign a value equal to and of the type of
+    the previous one, which changes nothing (no cache is dropped, no
+    callback is called again).
+    """
+    return all(
+        event.type != 'triggered' and type(event.old) is type(event.new)
+        and Comparator.is_equal(event.old, event.new)
+        for event in events
+    )
 
 
 class Wrapper(Parameterized):
@@ -932,20 +948,36 @@ class reactive_ops:
             except Exception:
                 return True
 
-        # The relays are internal watchers: they hear of every assignment
-        # (also of a value comparing equal to the previous one) and run
-        # after every expression has been invalidated (precedence -1) but
-        # before the callbacks of users, so that a callback that raises
-        # cannot leave an expression stale
-        def trigger_x(*args):
-            if selects(True):
+        # The relays are internal watchers of the branch references that are
+        # not dependencies of the condition anyway. They hear of every
+        # assignment (a value comparing equal to the previous one may be of
+        # another type) and work in two steps: the consumers of the
+        # expression are marked out of date once every expression has been
+        # invalidated (precedence -1) and before any callback of a user runs,
+        # so that a callback that raises cannot leave them stale; they are
+        # notified among the other callbacks, in registration order.
+        def relays(branch):
+            def invalidate(*events):
+                if _no_change(events) or not selects(branch):
+                    return
+                event = _ParamEvent(what='value', name='value', obj=trigger, cls=type(trigger),
+                                    old=False, new=True, type='triggered')
+                watchers = trigger._param__private.watchers.get('value', {}).get('value', [])
+                for watcher in list(watchers):
+                    if watcher.precedence < 0:
+                        watcher.fn(event)
+            def notify(*events):
+                if _no_change(events) or not selects(branch):
+                    return
                 trigger.param.trigger('value')
-        def trigger_y(*args):
-            if selects(False):
-                trigger.param.trigger('value')
-        for refs, relay in ((xrefs, trigger_x), (yrefs, trigger_y)):
+            return invalidate, notify
+        for refs, branch in ((xrefs, True), (yrefs, False)):
+            invalidate, notify = relays(branch)
+            refs = [r for r in refs if not any(r is p for p in params)]
             for _, ps in full_groupby(refs, lambda r: id(r.owner)):
-                ps[0].owner.param._watch(relay, [r.name for r in ps], onlychanged=False, precedence=-0.5)
+                names = [r.name for r in ps]
+                ps[0].owner.param._watch(invalidate, names, onlychanged=False, precedence=-0.5)
+                ps[0].owner.param._watch(notify, names, onlychanged=False, precedence=0)
         def ternary(condition, _):
             return resolve_value(x) if condition else resolve_value(y)
         return bind(ternary, self._reactive, trigger.param.value)
@@ -1115,8 +1147,15 @@ class reactive_ops:
         self._watch(fn, onlychanged=onlychanged, queued=queued, precedence=precedence)
 
     def _watch(self, fn=None, onlychanged=True, queued=False, precedence=0):
+        last = []
         def cb(value):
             from .parameterized import async_executor
+            if onlychanged:
+                # One change of the expression may reach the callback by
+                # several routes (an input and a where() relay in one batch)
+                if last and type(last[0]) is type(value) and Comparator.is_equal(last[0], value):
+                    return
+                last[:] = [value]
             if iscoroutinefunction(fn):
                 async_executor(partial(fn, value))
             elif fn is not None:
@@ -1632,12 +1671,14 @@ class rx:
             params[0].owner.param._watch(self._invalidate_current, [p.name for p in params], onlychanged=False, precedence=-1)
 
     def _invalidate_current(self, *events):
-        if all(event.obj is self._trigger for event in events):
+        if all(event.obj is self._trigger for event in events) or _no_change(events):
             return
         self._dirty = True
         self._error_state = None
 
     def _invalidate_obj(self, *events):
+        if _no_change(events):
+            return
         self._root._dirty_obj = True
         self._error_state = None
 
